@@ -48,24 +48,9 @@ PROFILES = {
                             p_use_pt=0.45),
 }
 
-# step descriptions the API accepts like any other: blank, with line breaks, very long ("" = an untitled step is added
-# when the session treats it as a step: see `empty_step_ok`)
-ODD_STEPS = [" ", "\t", "two\nlines", "\nleading line break", "trailing line break\n", "long " + "x" * 300]
-_EMPTY_STEP_OK = []
-
-
-def empty_step_ok():
-    """does the real Session treat `set_step("")` as a step like any other (StepStart AND StepEnd)?  The unchanged
-    session.py tests the description's truth value (`if self.cursor.step:`): finding D39 (C07).  While that is so,
-    generated scripts do not use "" (hand-written corpus witnesses do); once repaired they do."""
-    if not _EMPTY_STEP_OK:
-        try:
-            from props._session import empty_step_is_a_step
-            _EMPTY_STEP_OK.append(bool(empty_step_is_a_step()))
-        except Exception:
-            _EMPTY_STEP_OK.append(False)
-    return _EMPTY_STEP_OK[0]
-
+# step descriptions the API accepts like any other: "" (an untitled step: D39, repaired — session.py used to test the
+# description's truth value and never ended such a step), blank, with line breaks, very long
+ODD_STEPS = ["", "", " ", "\t", "two\nlines", "\nleading line break", "trailing line break\n", "long " + "x" * 300]
 
 
 # ------------------------------------------------------------------------------------------------
@@ -314,7 +299,7 @@ def _benign_act(rng, cfg, depth, steps, wdepth=0):
         if not (steps[0] and rng.random() < 0.45):
             steps[0] += 1
         if rng.random() < cfg.get("p_odd_step", 0.10):
-            return {"a": "step", "d": rng.choice(ODD_STEPS + ([""] * 3 if empty_step_ok() else []))}
+            return {"a": "step", "d": rng.choice(ODD_STEPS)}
         return {"a": "step", "d": "step %d" % steps[0]}
     if r < 0.75:
         return {"a": "url"}
@@ -336,8 +321,8 @@ def _benign_act(rng, cfg, depth, steps, wdepth=0):
             # held between two of its own acts: lets threads of other tests emit in between
             inner.insert(rng.randint(1, len(inner)), {"a": "gate"})
         if rng.random() < cfg.get("p_thread_base", 0.18):
-            # the thread's target does not return: sys.exit() (the regular way of ending a thread from the inside), a
-            # GeneratorExit, a project's own BaseException — after what it has logged so far
+            # the thread's target does not return: sys.exit() (the regular way of ending a thread from the inside: silent), a
+            # GeneratorExit, a project's own BaseException (uncaught exceptions of the test: failed) — after what it has logged so far
             inner.append({"a": "raise", "kind": "exc", "base": rng.choice(BASE_EXCEPTIONS)})
         act = {"a": "thread", "script": inner}
         if rng.random() < 0.4:
@@ -368,8 +353,8 @@ def _failing_act(rng, kinds):
     if kind == "exc" and rng.random() < 0.3:
         # not an `Exception`: sys.exit() in user code, a generator closed under it, a project's own BaseException
         # (in a unit of the task's own thread: same outcome as any unexpected exception; in the target of an lcc.Thread:
-        # `Thread.run` only catches `Exception` — nothing is logged, the thread's step is ended by the `finally`, the
-        # thread dies (SystemExit silently, the others through threading.excepthook) and the test goes on)
+        # sys.exit() ends the thread silently, any other class is logged as an error by `Thread.run` (fix D40); the thread's
+        # step is ended by the `finally`, the thread dies and the test goes on)
         act["base"] = rng.choice(BASE_EXCEPTIONS)
     return act
 
